@@ -69,6 +69,9 @@ func migrateCustomerExtPostCodeToAddress(inv *bill.Invoice) {
 		if len(inv.Customer.Addresses) == 0 {
 			inv.Customer.Addresses = []*org.Address{{}}
 		}
+		if inv.Customer.Addresses[0] == nil {
+			inv.Customer.Addresses[0] = new(org.Address)
+		}
 		inv.Customer.Addresses[0].Code = inv.Customer.Ext[extKeyPostCode]
 	}
 }
